@@ -25,7 +25,14 @@ STYLE = {'f': 'SFuture', 'c': 'SCallback', 'x': 'SFfi'}
 
 # ------------------------------------------------------------------------------- rendering
 def step_token(s):
+    if s[0] == '~':
+        return '~' + step_token(s[1:])
     return ':'.join(str(x) for x in s)
+
+
+def plain(script):
+    """the script without the no-settle markers"""
+    return [s[1:] if s[0] == '~' else s for s in script]
 
 
 def to_line(case):
@@ -69,6 +76,7 @@ def _bad(s):
 
 def to_coq(case):
     cfg, script = case
+    script = plain(script)
     mt = f'Some {cfg["mt"]}' if cfg['mt'] else 'None'
     return (f'{{| k_cap := {cfg["cap"]}; k_handles := {cfg["handles"]}; k_max_timeouts := {mt}; k_rmin := {cfg["rmin"]}; '
             f'k_rmax := {cfg["rmax"]}; k_res := {RES}; k_script := [{"; ".join(step_coq(s) for s in script)}] |}}')
@@ -141,6 +149,7 @@ def edge(a, b):
 def spec_failures(case, line):
     """the property statements read on ONE log (implementation or model); returns a list of failed clause names"""
     cfg, script = case
+    script = plain(script)
     p = parse(line)
     if p is None:
         return ['panic-or-garbled-output']
@@ -282,6 +291,7 @@ def session_outcomes(case, line):
     """per connection of one log: ([outcome letters in the order the requests were taken], end reason or None);
     t timeout, s success, e exception, b bad reply, o a request rejected locally (cannot be formatted), None = not finished"""
     cfg, script = case
+    script = plain(script)
     p = parse(line)
     if p is None:
         return []
@@ -569,6 +579,15 @@ def judge(ctx, prop, cases, impl, model, clause_prefixes=None):
     return n_mis, n_spec
 
 
+def tie_variants(case):
+    """the two sequential orders of a script with one no-settle step (both are behaviours of the model)"""
+    cfg, script = case
+    k = next(i for i, s in enumerate(script) if s[0] == '~')
+    a = plain(script)
+    b = a[:k] + [a[k + 1], a[k]] + a[k + 2:]
+    return (cfg, a), (cfg, b)
+
+
 def case_json(case):
     cfg, script = case
     return {'cfg': cfg, 'script': [list(s) for s in script]}
@@ -594,7 +613,9 @@ def classify(case, line):
             cl.add('listener:' + t[:2])
         if t[0] == 'x':
             cl.add('write-failed')
-    for s in script:
+    if any(s[0] == '~' for s in script):
+        cl.add('select-tie')
+    for s in plain(script):
         cl.add('step:' + s[0])
         if s[0] == 'S':
             cl.add('style:' + s[4])
